@@ -90,6 +90,9 @@ FOREIGN = [
     "%inc f", "%def n v", "%imp p", "%e x", "%port p", "%fine n v",
     "%clude f", "%includes f", "%define_ n v", "%d n v", "%i p", "%de",
     "%import_ p", "%in f", "%include.f",
+    # U+001A (the DOS end-of-file mark) is a character like any other
+    "\x1a", "\x1a v", "k\x1a v", "k v\x1a w", "\x1ak v", "# c\x1a",
+    "<a\x1a>", "<a b\x1a/>", " \x1a", "k \x1a",
 ]
 FOLD_PAIRS = [("straße", "strasse"), ("ς", "σ"), ("ﬁle", "file"),
               ("ſ", "s"), ("maſt", "mast"), ("İx", "i̇x"), ("ǅ", "ǆ"),
